@@ -63,7 +63,7 @@ ADDED2 = {
     'C02': 'the complete Writer by path (over longer files too); the bulk call as the only call and handed nothing; part starts beyond vertex 2^16',
     'C03': 'NaN in X / Y; record numbers i32::MAX / MIN; more than 1024 parts; a file without records followed by a stale record; the complete reader on every file',
     'C04': 'iteration after a random access at the last index; two finalizes in a row; 65537 records; read_nth_shape(usize::MAX); round 9: random access after k good steps and one typed step asking for another type',
-    'C05': 'shapes of 17..40 parts; a finalize before the first write; the boxes of the geo-types constructors',
+    'C05': 'shapes of 17..40 parts; a finalize before the first write; the boxes of the geo-types constructors; round 10: every third file is written again through a destination whose one-shot failure hits the first operation of one write_shape (a shape with a vertex at +-1e305), the caller keeps writing and finalizes, and the header box must be that of the shapes an independent walk of the bytes finds',
     'C06': 'identity of the conversions on shapes decoded from foreign files; shapefile::read_as(path) and Reader::from_path typed routes',
     'C07': 'far-away indices for Reader::seek, read_nth_shape and nth on a used iterator; small negative content lengths with every type code; round 9: an unoptimised build (profile noopt) over a sample of the case space and every case of class (i), 3000 / 40 000 / 200 000 index entries that cannot address a record',
     'C08': 'seek(2) / seek(5); per-pair calls followed by the bulk call; the empty history by path; pairs accepted before a refused row must survive; round 9: seek on the index-less complete reader (refused), then read()',
